@@ -1,10 +1,11 @@
 #!/bin/bash
-# tools/seeded_matrix.sh [tier] — runs, for every stored seeded change, the quick check of its own property against the
+# tools/seeded_matrix.sh [tier [id...]] — runs, for every stored seeded change, the quick check of its own property against the
 # change in the scratch worktree (never /repo) and prints one line per change: caught (exit 1) or MISSED (exit 0).
-TIER="${1:-quick}"
+TIER="${1:-quick}"; shift
 cd "$(dirname "$0")/.."
-for d in seeded/C*/; do
-  id=$(basename $d); prop=${id:0:3}
+LIST="$*"; [ -z "$LIST" ] && LIST=$(ls -d seeded/C*/ | xargs -n1 basename)
+for id in $LIST; do d=seeded/$id
+  prop=${id:0:3}
   out=$(tools/try_patch_scratch.sh $d/patch.diff $TIER $prop 2>&1)
   line=$(echo "$out" | grep -E "^== $prop" | head -1)
   if echo "$line" | grep -q "exit=1"; then echo "caught  $id by $prop :: ${line:0:200}"; else echo "MISSED  $id by $prop :: ${line:0:200}"; fi
